@@ -230,9 +230,16 @@ pub fn strategy(slot_budget: u128) -> impl Strategy<Value = Config> {
             ranges.insert(seat, narrow);
             Config { flop, ranges, scope: Some((0, 1, 1, 2)) }
         }),
-        // C: one player, special sizes, first rows or everything
-        3 => (flop_strategy(), special2, any::<u64>(), any::<bool>()).prop_map(|(flop, size, seed, full)| {
-            Config { flop, ranges: vec![sized_range(size, seed, true)], scope: if full { None } else { Some((0, 1, 3, 4)) } }
+        // C: one player, special sizes, first rows / everything / windows at the very end of the deck
+        3 => (flop_strategy(), special2, any::<u64>(), 0u8..8).prop_map(|(flop, size, seed, w)| {
+            let scope = match w {
+                0 | 1 | 2 => None,
+                3 | 4 => Some((0, 1, 3, 4)),
+                5 => Some((48, 49, 48, 49)),
+                6 => Some((47, 48, 48, 49)),
+                _ => Some((45, 48, 47, 48)),
+            };
+            Config { flop, ranges: vec![sized_range(size, seed, true)], scope }
         }),
         // D: an empty range at some seat
         3 => (flop_strategy(), proptest::collection::vec(prop_oneof![Just(0usize), Just(0usize), 1usize..6, Just(300usize)], 1..=4), any::<u64>(), 0usize..4, any::<bool>()).prop_map(|(flop, sizes, seed, seat, full)| {
@@ -307,7 +314,7 @@ pub fn strategy(slot_budget: u128) -> impl Strategy<Value = Config> {
 }
 
 pub fn run(ctx: &mut Ctx) {
-    ctx.rule = "proptest configurations as data, each drained in a child process on a 2 MiB thread, once per build profile (release: wrapping arithmetic; dbgchk: espada at opt-level 0 with overflow checks and debug assertions): narrow range holding the first deck cards beside wide ranges inside a window of the first turn rows (longest blocked runs), narrow/wide/wide, one player of sizes {0,1,2,255,256,257,511,512,513,768,1024,1326,random}, empty range at any seat, ranges consisting only of flop-card combos, 7-300 single-combo players (23/24/127/128/129/255/256/257 among them), 1,000-100,000 single-combo players in a two-position window, 3-24 big ranges (sizes multiplying past 2^32 and 2^64) with one empty range at any seat, moderate full drains. Violation = child panics / dies on a signal (stack overflow) / yields more showdowns than odometer slots / yields anything with an empty range. Non-trivial = order-independent lower bound of the longest blocked run >= 10,000 slots, or a size in {0,255,256,257,>=512}, or >= 24 players; distinct by configuration.".into();
+    ctx.rule = "proptest configurations as data, each drained in a child process on a 2 MiB thread, once per build profile (release: wrapping arithmetic; dbgchk: espada at opt-level 0 with overflow checks and debug assertions): narrow range holding the first deck cards beside wide ranges inside a window of the first turn rows (longest blocked runs), narrow/wide/wide, one player of sizes {0,1,2,255,256,257,511,512,513,768,1024,1326,random} (full drains, first rows, windows at the very end of the deck incl. the empty scope on the terminal position), empty range at any seat, ranges consisting only of flop-card combos, 7-300 single-combo players (23/24/127/128/129/255/256/257 among them), 1,000-100,000 single-combo players in a two-position window, 3-24 big ranges (sizes multiplying past 2^32 and 2^64) with one empty range at any seat, moderate full drains. Violation = child panics / dies on a signal (stack overflow) / yields more showdowns than odometer slots / yields anything with an empty range. Non-trivial = order-independent lower bound of the longest blocked run >= 10,000 slots, or a size in {0,255,256,257,>=512}, or >= 24 players; distinct by configuration.".into();
     ctx.assumptions = vec![
         "a hang that yields nothing can only hit the watchdog (exit 2, inconclusive), never a violation".into(),
         "debug = cargo's dev settings for espada (opt-level 0, overflow checks, debug assertions); third-party crates are optimised".into(),
